@@ -21,7 +21,7 @@ ROWS = [
     (4, 'EValue', ['-w', '1,3,0,0,0,1,0,0,0.001', '-w', '1,3,0,0,1,1,0,1,0.001']),
     (5, 'EValue', W + ['--geo-rotate=1,x,0,0']), (5, 'EValue', W + ['--geo-translate=1,0,nan,0']),
     (6, 'EKey', W + ['--geo-rotate=1,0,0,10,99']),
-    (7, 'EKey', W + ['--geo-scale=2,99']), (7, 'EValue', W + ['--geo-scale=0']),
+    (7, 'EKey', W + ['--geo-scale=2,99']), (7, 'EValue', W + ['--geo-scale=0']), (7, 'EValue', W + ['--geo-scale=-1']),
     (8, 'EKey', W + ['--taper-wire=99,1']), (8, 'EValue', W + ['--taper-wire=1,x']),
     (9, 'EValue', W + ['--medium=1,0,0']), (9, 'EValue', W + ['--medium=0,0,0', '--radial-count=4', '--radial-radius=0.001']), (9, 'EValue', W + ['--medium=nan,1,0']),
     (10, 'EValue', ['-w', '5,0,0,-1,0,0,1,0.001', '--medium=0,0,0', '--excitation-pulse=3']),
